@@ -1,72 +1,82 @@
 """Per-property checks.  Every check has the same three gates (DESIGN.md 2.5):
-   1 proof gate, 2 correspondence on the property's slice, 3 oracle pass on the real code."""
+   1 proof gate, 2 correspondence of the model with /repo on the property's slice, 3 oracle search
+   for a failing input on the real code."""
+import glob
 import json
+import os
 import random
 
 from . import core, gen, hist, jsoncheck, model, realrun, wire
 
-# theorems (fully qualified Lean names) whose proofs decide each property on the model
-THEOREMS = {p: [] for p in ['C%02d' % i for i in range(1, 19)] + ['TIE']}
+ALL = ['C%02d' % i for i in range(1, 19)]
 
-# discrepancy categories (hist.analyze) that count as a failing input of the property
+# theorems (fully qualified Lean names) that decide each property on the model
+THEOREMS = {p: [] for p in ALL + ['TIE']}
+THEOREMS['C04'] = ['FB.C04_exists_iff', 'FB.C04_not_both', 'FB.C04_listDir_iff', 'FB.C04_listDir_errors',
+                   'FB.C04_hidden', 'FB.C04_visible_elsewhere']
+THEOREMS['C10'] = ['FB.C10_success', 'FB.C10_failure', 'FB.C10_setup']
+THEOREMS['C12'] = ['FB.C12_preClean_frame', 'FB.C12_clean_noop_without_cache', 'FB.C12_clean_idempotent',
+                   'FB.C12_impl_clean_is_preClean']
+THEOREMS['C15'] = ['FB.C15_spec_build_refused', 'FB.C15_impl_build_refused', 'FB.C15_spec_clean_refused']
 THEOREMS['C18'] = ['FB.sanitize_shape', 'FB.sanitize_idempotent', 'FB.sanitize_rejects_iff', 'FB.isEqual_refl',
                    'FB.isEqual_int_float', 'FB.isEqual_bool_num', 'FB.isEqual_list_tuple']
 
-HIST_CATS = {
+# oracle categories (hist.analyze) that are a failing input of the property on the real code
+ORACLE = {
     'C01': ['res', 'tree', 'inv_extra'],
-    'TIE': ['impl_res', 'impl_tree', 'impl_inv', 'impl_cache'],
     'C02': ['rollback', 'exc_identity', 'tmp_leak'],
     'C03': ['foreign'],
+    'C04': ['res', 'tree'],
     'C05': ['unjustified', 'rewritten'],
-    'C12': ['clean_tree', 'clean_res'],
+    'C06': ['res', 'tree', 'version_not_reexecuted', 'unjustified'],
+    'C07': ['res', 'inv_extra', 'unjustified'],
+    'C08': ['res', 'inv_extra', 'tree'],
+    'C10': ['contract', 'res', 'tree'],
+    'C12': ['clean_tree', 'clean_res', 'foreign'],
+    'C13': ['res', 'tree', 'unjustified'],
+    'C15': ['refused_effect', 'tmp_leak'],
+    'C16': ['res', 'unjustified'],
+    'TIE': [],
 }
-
-
-_ORACLE = ('Lean 4 reference semantics FB.Spec (from-scratch build on a pure tree) executed by fbdriver and compared with the '
-           'real FileBuilder of /repo on generated programs x histories; ')
-LEVELS = {
-    'C01': dict(category='translation_validation', technique='Lean reference semantics (FB.Spec) as executable oracle + differential runs against /repo',
-                text=_ORACLE + 'return values, exceptions and trees of every step must agree. The refinement theorem Impl ⊑ Spec is not proved yet, so this is not yet a proof-level claim.',
-                note='trusted: FB.Spec as the meaning of "from scratch", the harness, the abstract FS; bounded/sampled exploration only'),
-    'C02': dict(category='translation_validation', technique='FB.Spec oracle + byte/mtime/inode snapshot equality around every failing build',
-                text=_ORACLE + 'after every failing build the real tree must equal the pre-build snapshot (bytes, mtime, inode, cache file included) up to the stated latitude, and the exception must be the raised object.',
-                note='trusted: harness snapshots; raise points are those the generated programs contain'),
-    'C03': dict(category='translation_validation', technique='FB.Spec oracle + snapshot of the complement of the managed set around every API call',
-                text=_ORACLE + 'files outside {cache file, this build\'s targets, previous outputs} must keep bytes/mtime/inode and unrecorded directories must survive every build, rollback and clean.',
-                note='trusted: harness snapshots, model record of the previous build (outputs, created dirs)'),
-    'C05': dict(category='translation_validation', technique='FB.Spec call tree as oracle for justified re-execution on unchanged rebuilds',
-                text=_ORACLE + 'on every unchanged rebuild the real invocation log must be within the set justified by the from-scratch call tree (raised records, nested setup failures) and no output may be rewritten.',
-                note='only the unchanged-rebuild clause is decided so far; observed-path mutations are compared through C01'),
-    'C12': dict(category='translation_validation', technique='FB.Spec.clean as executable oracle + differential runs',
-                text=_ORACLE + 'clean at random positions of histories: resulting tree equals Spec.clean, foreign snapshot unchanged.',
-                note='trusted: FB.Spec.clean, harness'),
+# correspondence slices: disagreements between the real code and the implementation model FB.Impl
+TIE = {
+    'C01': ['impl_res', 'impl_tree', 'impl_inv', 'impl_cache'],
+    'C02': ['impl_tree', 'impl_res'],
+    'C03': ['impl_tree'],
+    'C04': ['impl_res'],
+    'C05': ['impl_inv'],
+    'C06': ['impl_inv', 'impl_res'],
+    'C07': ['impl_inv', 'impl_res'],
+    'C08': ['impl_inv', 'impl_res'],
+    'C10': ['impl_res', 'impl_tree'],
+    'C12': ['impl_tree'],
+    'C13': ['impl_inv', 'impl_res'],
+    'C15': ['impl_res', 'impl_tree'],
+    'C16': ['impl_cache', 'impl_res'],
+    'TIE': ['impl_res', 'impl_tree', 'impl_inv', 'impl_cache'],
 }
-LEVELS['C18'] = dict(category='translation_validation', technique='Lean model FB.Json of JsonUtil + exhaustive small-scope and random differential runs; laws evaluated on the real functions',
-                     text='sanitize / is_equal / to_hashable of /repo agree with the Lean model FB.Json and with json.loads(json.dumps(v)) on all values up to a size bound over the collision atom set and on random deep values; the laws (idempotence, freshness, reflexive/symmetric/transitive, hashable-iff-equal, TypeError exactly on non-JSON) are evaluated on the real functions. Theorems about FB.Json are being added.',
-                     note='json module, float repr trusted; NaN excluded by the property')
-NOT_YET = {}
 
 
 def budget(tier, quick, thorough):
     return quick if tier == 'quick' else thorough
 
 
-def shrink_case(case, pred, max_rounds=200):
-    """greedy delta-debugging: drop history steps, then statements, while `pred(case)` still holds"""
+# --------------------------------------------------------------------------------------------
+def shrink_case(case, pred, max_rounds=150):
+    """greedy delta-debugging: drop history steps, statements, tree nodes while `pred(case)` holds"""
     cur = json.loads(json.dumps(case))
-    rounds = 0
+    rounds = [0]
 
     def still(c):
-        nonlocal rounds
-        rounds += 1
-        if rounds > max_rounds:
+        rounds[0] += 1
+        if rounds[0] > max_rounds:
             return False
         try:
             return pred(c)
         except Exception:
             return False
     changed = True
-    while changed and rounds <= max_rounds:
+    while changed and rounds[0] <= max_rounds:
         changed = False
         for i in range(len(cur['steps']) - 1, -1, -1):
             c = json.loads(json.dumps(cur)); del c['steps'][i]
@@ -84,46 +94,14 @@ def shrink_case(case, pred, max_rounds=200):
     return cur
 
 
-def hist_failing(case, cats):
+def discrepancies(case, cats):
     (c, r, s), = hist.run_batch([case], procs=1)
     ds, _ = hist.analyze(c, r, s)
     return [d for d in ds if d['cat'] in cats]
 
 
-def check_history_property(prop, tier, rep, cases, cats, note=''):
-    """run cases on real code + model, report discrepancies of the given categories"""
-    results = hist.run_batch(cases)
-    agg = {}
-    nviol = 0
-    for c, r, s in results:
-        ds, st = hist.analyze(c, r, s)
-        for k, v in st.items():
-            agg[k] = agg.get(k, 0) + v
-        rep.count('evaluations')
-        if st['hits'] > 0 and (st['real_inv'] > 0):
-            rep.distinct.add(json.dumps([c['funcs'], c['steps']], sort_keys=True))
-        mine = [d for d in ds if d['cat'] in cats]
-        if mine and nviol < 3:
-            nviol += 1
-            small = shrink_case(c, lambda cc: bool(hist_failing(cc, cats)))
-            fails = hist_failing(small, cats) or mine
-            rep.violation('seed%s' % c.get('seed'), {
-                'property': prop, 'kind': 'failing-input', 'what': fails[:3], 'case': small,
-                'original_seed': c.get('seed'), 'how_to_replay': './check %s --replay <this file>' % prop},
-                note='%s: %s' % (fails[0]['cat'], json.dumps(fails[0]['detail'])[:200]))
-        elif mine:
-            nviol += 1
-    rep.coverage.update({'programs': len(cases), 'disagreements_checked': len(cases),
-                         'history_stats': agg, 'failing_cases': nviol})
-    if cases:
-        rep.samples.append({'seed': cases[0].get('seed'), 'funcs': cases[0]['funcs'][:2], 'steps': cases[0]['steps'][:4]})
-    return nviol
-
-
 def corpus_cases(dirsize):
     """minimised past failures and defect witnesses: always run first"""
-    import glob
-    import os
     out = []
     for f in sorted(glob.glob(os.path.join(core.VERIF, 'corpus', '*.json'))):
         with open(f) as fh:
@@ -135,32 +113,286 @@ def corpus_cases(dirsize):
     return out
 
 
-def default_cases(tier, n_quick, n_thorough, salt, prof=gen.DEFAULT_PROFILE, dirsize=4096, **kw):
+def nontrivial_key(c, st):
+    if st['hits'] > 0 and st['real_inv'] > 0:
+        return json.dumps([c['funcs'], c['steps'], c['tree']], sort_keys=True)
+    return None
+
+
+def explore(prop, tier, rep, cases):
+    """gates 2 and 3 on a list of history cases"""
+    oracle_cats, tie_cats = ORACLE[prop], TIE[prop]
+    results = hist.run_batch(cases)
+    agg = {}
+    n_oracle = n_tie = 0
+    first_tie = None
+    for c, r, s in results:
+        ds, st = hist.analyze(c, r, s)
+        for k, v in st.items():
+            agg[k] = agg.get(k, 0) + v
+        rep.count('evaluations')
+        k = nontrivial_key(c, st)
+        if k:
+            rep.distinct.add(k)
+        mine = [d for d in ds if d['cat'] in oracle_cats]
+        tie = [d for d in ds if d['cat'] in tie_cats]
+        if mine:
+            n_oracle += 1
+            if n_oracle <= 3:
+                small = shrink_case(c, lambda cc: bool(discrepancies(cc, oracle_cats)))
+                fails = discrepancies(small, oracle_cats) or mine
+                known = core.match_known(prop, small, fails)
+                if known:
+                    rep.known.append(known)
+                    n_oracle -= 1
+                else:
+                    rep.violation('seed%s' % str(c.get('seed')).replace(':', '_').replace('/', '_'), {
+                        'property': prop, 'kind': 'failing-input', 'what': fails[:3], 'case': small,
+                        'original_seed': c.get('seed'), 'how_to_replay': './check %s --replay <this file>' % prop},
+                        note='%s: %s' % (fails[0]['cat'], json.dumps(fails[0]['detail'])[:220]))
+        elif tie:
+            n_tie += 1
+            if first_tie is None:
+                first_tie = (c, tie)
+    rep.count('correspondence_disagreements', n_tie)
+    if first_tie is not None and not rep.violations:
+        # the model and the code disagree on this slice and the oracle found no failing input:
+        # the property is no longer shown to hold
+        c, tie = first_tie
+        small = shrink_case(c, lambda cc: bool(discrepancies(cc, tie_cats)))
+        found = discrepancies(small, oracle_cats)
+        fails = discrepancies(small, tie_cats) or tie
+        rep.violation('tie', {
+            'property': prop, 'kind': 'correspondence-broken' if not found else 'failing-input',
+            'no_longer_checks': 'correspondence of FB.Impl with the real code on slice %s' % tie_cats,
+            'what': (found or fails)[:3], 'case': small, 'original_seed': c.get('seed')},
+            note='model/code disagree: %s' % json.dumps(fails[0])[:220], no_input=not found)
+    rep.coverage.update({'programs': len(cases), 'disagreements_checked': len(cases), 'history_stats': agg,
+                         'failing_cases': n_oracle, 'traces_validated_against_impl': len(cases) - n_tie})
+    if cases:
+        mid = cases[len(cases) // 2]
+        rep.samples.append({'seed': mid.get('seed'), 'funcs': mid['funcs'][:2], 'steps': mid['steps'][:4]})
+
+
+def random_cases(tier, n_quick, n_thorough, salt, prof=gen.DEFAULT_PROFILE, dirsize=4096, **kw):
     base = core.seed() * 1000003 + salt * 7919
-    n = budget(tier, n_quick, n_thorough)
-    return [gen.gen_case(base + i, prof, dirsize=dirsize, **kw) for i in range(n)]
+    return [gen.gen_case(base + i, prof, dirsize=dirsize, **kw) for i in range(budget(tier, n_quick, n_thorough))]
 
 
-def run_hist_prop(prop, tier, salt, n_quick, n_thorough, **kw):
-    rep = core.Report(prop, tier)
-    gate = core.proof_gate(THEOREMS[prop], tier)
+def measure():
     ds = realrun.measure_dirsize()
     if ds is None:
         raise core.HarnessError('directory sizes vary on %s; set FBH_TMP to an ext4-like file system' % realrun.SANDBOX_BASE)
-    cases = corpus_cases(ds) + default_cases(tier, n_quick, n_thorough, salt, dirsize=ds, **kw)
-    check_history_property(prop, tier, rep, cases, HIST_CATS[prop])
+    return ds
+
+
+def finish(prop, rep, gate):
     if not gate['ok'] and not rep.violations:
         rep.violation('proofgate', {'property': prop, 'kind': 'broken-proof-obligation',
-                                    'failures': gate['failures']}, note='; '.join(gate['failures'])[:300],
-                      no_input=True)
+                                    'no_longer_checks': gate['failures']},
+                      note='; '.join(gate['failures'])[:300], no_input=True)
     return rep.finish(gate)
 
 
-def check_C01(tier): return run_hist_prop('C01', tier, 1, 800, 40000)
-def check_C02(tier): return run_hist_prop('C02', tier, 2, 800, 40000, p_fail=0.5)
-def check_C03(tier): return run_hist_prop('C03', tier, 3, 800, 40000, p_fail=0.3, p_clean=0.2)
-def check_C05(tier): return run_hist_prop('C05', tier, 5, 800, 40000, p_fail=0.05, p_clean=0.03, min_builds=3, max_builds=6)
-def check_C12(tier): return run_hist_prop('C12', tier, 12, 800, 40000, p_clean=0.4)
+def run_hist_prop(prop, tier, salt, n_quick, n_thorough, families=gen.SCENARIOS, per_family=(25, 600),
+                  prof=gen.DEFAULT_PROFILE, extra_cases=None, **kw):
+    rep = core.Report(prop, tier)
+    gate = core.proof_gate(THEOREMS[prop], tier)
+    ds = measure()
+    cases = corpus_cases(ds)
+    cases += gen.gen_scenario_cases(core.seed() * 31 + salt, budget(tier, *per_family), ds, families)
+    if extra_cases:
+        cases += extra_cases(tier, ds)
+    cases += random_cases(tier, n_quick, n_thorough, salt, prof=prof, dirsize=ds, **kw)
+    explore(prop, tier, rep, cases)
+    return finish(prop, rep, gate)
+
+
+# ---------------------------------------------------------------------------------------------
+QUERY_DENSE = dict(gen.DEFAULT_PROFILE, p_q=0.7, p_bf=0.14, p_sb=0.08, p_raise=0.02, p_if=0.06, max_stmts=8)
+RICH_ARGS = dict(gen.DEFAULT_PROFILE, args=[0, 1, 1.0, True, False, None, 'x', '', [1, 2], (1, 2), [1.0, 2], {'k': 1},
+                                           {'k': 1.0}, {1: 'a'}, {'1': 'a'}, {'a': 1, 'b': 2}, {'b': 2, 'a': 1},
+                                           2 ** 70, -0.0, 0, [[]], [()], {'a': [1, (2,)]}, 'é', '\U0001F600'],
+                 p_sb=0.35, p_bf=0.2, p_q=0.25)
+RICH_RETS = dict(gen.DEFAULT_PROFILE, rets=['acc', 'const', 'const', 'const'])
+
+
+def check_C01(tier): return run_hist_prop('C01', tier, 1, 700, 40000)
+def check_C02(tier): return run_hist_prop('C02', tier, 2, 700, 40000, p_fail=0.5)
+def check_C03(tier): return run_hist_prop('C03', tier, 3, 700, 40000, p_fail=0.3, p_clean=0.2)
+def check_C04(tier): return run_hist_prop('C04', tier, 4, 500, 20000, prof=QUERY_DENSE)
+def check_C05(tier): return run_hist_prop('C05', tier, 5, 700, 40000, p_fail=0.05, p_clean=0.03, min_builds=3, max_builds=6)
+
+
+def check_C06(tier):
+    return run_hist_prop('C06', tier, 6, 500, 20000, families=[gen.scen_versions], per_family=(150, 4000),
+                         versions_pool=gen.VERSION_POOL, p_fail=0.05, p_clean=0.0, min_builds=3, max_builds=6)
+
+
+def check_C07(tier):
+    return run_hist_prop('C07', tier, 7, 700, 30000, families=[gen.scen_dups], per_family=(100, 2000), prof=RICH_ARGS,
+                         p_fail=0.05, p_clean=0.0)
+
+
+def check_C08(tier):
+    return run_hist_prop('C08', tier, 8, 500, 30000, families=[gen.scen_dups, gen.scen_nested_failure], per_family=(120, 3000),
+                         prof=RICH_ARGS, p_fail=0.1)
+
+
+def check_C10(tier):
+    return run_hist_prop('C10', tier, 10, 500, 30000, families=[gen.scen_nested_failure, gen.scen_swap, gen.scen_stale_dir],
+                         per_family=(80, 2000), p_fail=0.1)
+
+
+def check_C12(tier): return run_hist_prop('C12', tier, 12, 700, 40000, p_clean=0.4)
+
+
+def c13_cases(tier, ds):
+    out = []
+    for i in range(budget(tier, 300, 8000)):
+        rng = random.Random(core.seed() * 77 + 13 * 1000003 + i)
+        c = gen.scen_reads(rng, modes=rng.choice(['H', 'M']), samemeta=True)
+        c.update({'kind': 'hist', 'seed': 'c13:%d' % i, 'dirsize': ds, 'cache': 'cache.gz'})
+        out.append(c)
+    return out
+
+
+def check_C13(tier):
+    return run_hist_prop('C13', tier, 13, 200, 10000, families=[gen.scen_reads], per_family=(150, 4000),
+                         extra_cases=c13_cases, prof=dict(gen.DEFAULT_PROFILE, p_hash=0.5))
+
+
+def c15_cases(tier, ds):
+    out = []
+    classes = ['truncate:0', 'truncate:5', 'truncate:20', 'truncate:1000000', 'bitflip:3', 'bitflip:40', 'bitflip:97',
+               'nongzip', 'gzip_nonjson', 'wrong_shape', 'other_software', 'no_software', 'newer_version', 'empty']
+    for i in range(budget(tier, 120, 4000)):
+        rng = random.Random(core.seed() * 91 + 15 * 1000003 + i)
+        c = gen.gen_case(rng.randrange(10 ** 9), dirsize=ds, p_fail=0.0, p_clean=0.0, min_builds=1, max_builds=2)
+        how = rng.choice(['corrupt', 'corrupt', 'corrupt', 'todir', 'name'])
+        if how == 'corrupt':
+            cls = rng.choice(classes)
+            if cls.startswith('bitflip') and tier == 'thorough':
+                cls = 'bitflip:%d' % rng.randrange(0, 4000)
+            if cls.startswith('truncate') and tier == 'thorough':
+                cls = 'truncate:%d' % rng.randrange(0, 400)
+            c['steps'].append(['mut', 'corrupt', 'cache.gz', cls, None])
+            name = 'n'
+        elif how == 'todir':
+            c['steps'].append(['mut', 'todir', 'cache.gz', None, None])
+            name = 'n'
+        else:
+            name = 'other'
+        c['steps'].append(rng.choice([['build', name, gen.enc_simple({}), 0, gen.enc_simple(0)],
+                                      ['clean', name], ['clean', name if how == 'name' else None]]))
+        c['steps'].append(['build', name, gen.enc_simple({}), 0, gen.enc_simple(0)])
+        c['seed'] = 'c15:%d' % i
+        out.append(c)
+    return out
+
+
+def check_C15(tier):
+    rep = core.Report('C15', tier)
+    gate = core.proof_gate(THEOREMS['C15'], tier)
+    ds = measure()
+    explore('C15', tier, rep, corpus_cases(ds) + c15_cases(tier, ds))
+    bad = wrong_argument_calls(rep)
+    for b in bad[:3]:
+        rep.violation('args', {'property': 'C15', 'kind': 'failing-input', 'what': b}, note=json.dumps(b)[:200])
+    return finish('C15', rep, gate)
+
+
+def wrong_argument_calls(rep):
+    """every wrong-typed argument position of build / build_versioned / clean on a tree with outputs:
+    TypeError (or the documented error), tree bit-identical, nothing called, no temp dir left"""
+    import shutil
+    import tempfile
+    fb = realrun.load_fb()
+    FB = fb.FileBuilder
+    bad = []
+    root = os.path.realpath(tempfile.mkdtemp(prefix='fbh_c15_', dir=realrun.SANDBOX_BASE))
+    priv = tempfile.mkdtemp(prefix='fbh_tmp_', dir=realrun.SANDBOX_BASE)
+    old = tempfile.tempdir
+    tempfile.tempdir = priv
+    try:
+        cache = os.path.join(root, 'cache.gz')
+        called = []
+
+        def good(b):
+            called.append(1)
+            b.build_file(os.path.join(root, 'o', 'x'), 'w', lambda bb, fn: open(fn, 'w').write('x') and None)
+        FB.build(cache, 'n', good)
+        calls = [
+            ('build name int', lambda: FB.build(cache, 5, good)),
+            ('build name None', lambda: FB.build(cache, None, good)),
+            ('build func not callable', lambda: FB.build(cache, 'n', 'notcallable')),
+            ('build cache path int', lambda: FB.build(5, 'n', good)),
+            ('build cache path None', lambda: FB.build(None, 'n', good)),
+            ('build_versioned versions list', lambda: FB.build_versioned(cache, 'n', [], good)),
+            ('build_versioned versions non-json', lambda: FB.build_versioned(cache, 'n', {'f': {1, 2}}, good)),
+            ('build_versioned versions None', lambda: FB.build_versioned(cache, 'n', None, good)),
+            ('build_versioned name bytes', lambda: FB.build_versioned(cache, b'n', {}, good)),
+            ('clean name int', lambda: FB.clean(cache, 5)),
+            ('clean cache path int', lambda: FB.clean(5, 'n')),
+            ('clean other name', lambda: FB.clean(cache, 'zzz')),
+            ('build other name', lambda: FB.build(cache, 'zzz', good)),
+        ]
+        for label, call in calls:
+            before = realrun.snapshot(root, '<none>')
+            del called[:]
+            try:
+                call()
+                bad.append({'call': label, 'problem': 'did not raise'})
+            except Exception:
+                pass
+            rep.count('evaluations')
+            rep.count('refused_calls')
+            after = realrun.snapshot(root, '<none>')
+            if before != after:
+                bad.append({'call': label, 'problem': 'tree changed', 'diff': [x for x in after if x not in before][:3]})
+            if called:
+                bad.append({'call': label, 'problem': 'user function was called'})
+            if os.listdir(priv):
+                bad.append({'call': label, 'problem': 'temporary directory left behind', 'left': os.listdir(priv)})
+    finally:
+        tempfile.tempdir = old
+        shutil.rmtree(root, ignore_errors=True)
+        shutil.rmtree(priv, ignore_errors=True)
+    return bad
+
+
+NAME_POOL = ['a b', 'ü', '.hidden', 'x.tar.gz', 'a\tb', "q'uote\"d", 'back\\slash', '\U0001F600', ' lead', 'trail ', '#%&', 'é/ß']
+
+
+def c16_cases(tier, ds):
+    """return values of every JSON shape and outputs with every legal name, served from the cache"""
+    out = []
+    vals = [0, -1, 2 ** 70, 1.5, -0.0, 1e300, float('inf'), '', 'é', '\U0001F600', 'a"b\\c', None, True, False,
+            [], {}, [1, [2, [3]]], {'a': {'b': [None, 1.0]}}, {'': 0}, [1.0, 1, True], 'line\nbreak', ' ']
+    for i in range(budget(tier, 200, 6000)):
+        rng = random.Random(core.seed() * 53 + 16 * 1000003 + i)
+        names = rng.sample(NAME_POOL, 3)
+        p1 = names[0] if '/' not in names[0] else names[0]
+        p2 = '%s/%s' % (names[1].replace('/', '_'), names[2].replace('/', '_'))
+        v1, v2, v3 = (rng.choice(vals) for _ in range(3))
+        funcs = [
+            gen._fn('f0', [gen._sb(1, arg=v3), gen._bf(p1.replace('/', '_'), 2, arg=v1, cmp_=rng.choice('MH')), gen._bf(p2, 3, cmp_=rng.choice('MH')), gen._sb(4)]),
+            gen._fn('f1', [], {'const': gen.enc_simple(v1)}),
+            gen._fn('f2', [['w', None]], {'const': gen.enc_simple(v2)}),
+            gen._fn('f3', [gen._sb(1, arg=[v3], catch=True), ['w', None]], 'acc'),
+            gen._fn('f4', [gen._q('read', p2, rng.choice('MH')), ['raise', 4]] if rng.random() < 0.3 else [gen._q('list_dir', '')], 'acc'),
+        ]
+        funcs.append(gen._fn('rootfail', funcs[0]['stmts'] + [['raise', 99]]))
+        steps = [gen._build(), gen._build(), gen._build(root=rng.choice([0, 5])), gen._build()]
+        if rng.random() < 0.5:
+            steps.append(['clean', 'n'])
+        out.append({'kind': 'hist', 'seed': 'c16:%d' % i, 'dirsize': ds, 'cache': 'cache.gz', 'tree': [], 'funcs': funcs, 'steps': steps})
+    return out
+
+
+def check_C16(tier):
+    return run_hist_prop('C16', tier, 16, 300, 15000, families=[], per_family=(0, 0), extra_cases=c16_cases, prof=RICH_RETS,
+                         p_fail=0.1)
 
 
 def check_C18(tier):
@@ -171,28 +403,30 @@ def check_C18(tier):
         rep.violation('json', {'property': 'C18', 'kind': 'failing-input', 'what': what, 'input': repr(inp), 'got': repr(got)},
                       note='%s on %r' % (what, inp))
     rep.coverage.update({'programs': rep.counters.get('values', 0), 'disagreements_checked': rep.counters.get('evaluations', 0)})
-    if not gate['ok'] and not rep.violations:
-        rep.violation('proofgate', {'property': 'C18', 'kind': 'broken-proof-obligation', 'failures': gate['failures']},
-                      note='; '.join(gate['failures'])[:300], no_input=True)
-    return rep.finish(gate)
+    return finish('C18', rep, gate)
 
 
 def check_TIE(tier): return run_hist_prop('TIE', tier, 99, 800, 40000)
 
 
-CHECKS = {'TIE': check_TIE, 'C18': check_C18, 'C01': check_C01, 'C02': check_C02, 'C03': check_C03, 'C05': check_C05, 'C12': check_C12}
+CHECKS = {'TIE': check_TIE, 'C01': check_C01, 'C02': check_C02, 'C03': check_C03, 'C04': check_C04, 'C05': check_C05,
+          'C06': check_C06, 'C07': check_C07, 'C08': check_C08, 'C10': check_C10, 'C12': check_C12, 'C13': check_C13,
+          'C15': check_C15, 'C16': check_C16, 'C18': check_C18}
 
 
 def replay(prop, path):
     with open(path) as fh:
         payload = json.load(fh)
-    if 'case' in payload and prop in HIST_CATS:
-        fails = hist_failing(payload['case'], HIST_CATS[prop])
+    if 'case' in payload and prop in ORACLE:
+        fails = discrepancies(payload['case'], ORACLE[prop] + TIE[prop])
         if fails:
             print('VIOLATION property=%s replay=%s' % (prop, path))
             print('  ' + json.dumps(fails[0])[:400])
             return 1
         print('replay: the recorded input no longer fails')
         return 0
-    print('replay: nothing executable in this file (kind=%s)' % payload.get('kind'))
+    print('replay: nothing executable in this file (kind=%s): %s' % (payload.get('kind'), json.dumps(payload.get('no_longer_checks'))[:300]))
     return 0
+
+
+from .levels import LEVELS, NOT_YET  # noqa: E402,F401
